@@ -127,6 +127,24 @@ def unraw(v):
     return lookalike(v) if isinstance(v, list) and len(v) == 3 and v[0] == "num" else v
 
 
+class _MyInt(int):
+    """an int subclass of the application's own (a validated scene number, a numpy-like scalar)"""
+
+
+def num(case, v):
+    """A numeric constructor argument in the form the case names: case["intform"] = "intenum" hands a plain int over as
+    the member of an enum.IntEnum (a program's named scenes / groups / levels), "intsub" as an int subclass."""
+    v = unraw(v)
+    form = case.get("intform")
+    if form and isinstance(v, int) and not isinstance(v, bool):
+        if form == "intenum":
+            import enum
+            return enum.IntEnum("Named", {"MEMBER": v}).MEMBER
+        if form == "intsub":
+            return _MyInt(v)
+    return v
+
+
 LOOKALIKES = [("float-integral", "float"), ("fraction", "fraction"), ("decimal", "decimal"), ("complex", "complex")]
 
 
@@ -204,15 +222,15 @@ def construct(case):
         raise LookupError(case["cls"])
     fam = case["fam"]
     if fam == "_StandardCommand":
-        return cls(build_dest(address, case["dest"]), *[unraw(x) for x in case.get("params", [])], **case.get("extra_kw", {}))
+        return cls(build_dest(address, case["dest"]), *[num(case, x) for x in case.get("params", [])], **case.get("extra_kw", {}))
     if fam == "DAPC":
-        return cls(build_dest(address, case["dest"]), unraw(case["power"]))
+        return cls(build_dest(address, case["dest"]), num(case, case["power"]))
     if fam == "_SpecialCommand":
-        return cls(*[unraw(x) for x in case.get("params", [])])
+        return cls(*[num(case, x) for x in case.get("params", [])])
     if fam == "_ShortAddrSpecialCommand":
-        return cls(unraw(case["address"]))
+        return cls(num(case, case["address"]))
     if fam == "Initialise":
-        return cls(**{k: unraw(v) for k, v in case["kw"].items()})
+        return cls(**{k: num(case, v) for k, v in case["kw"].items()})
     if fam == "_StandardDeviceCommand":
         return cls(build_dest(address, case["dest"]))
     if fam == "_StandardInstanceCommand":
@@ -221,7 +239,7 @@ def construct(case):
             build_dest(address, ["raw", inst]) if not isinstance(inst, list) else build_dest(address, inst)
         return cls(build_dest(address, case["dest"]), inst)
     if fam in ("_SpecialDeviceCommand", "_SpecialDeviceCommandOneParam", "_SpecialDeviceCommandTwoParam"):
-        return cls(*[unraw(x) for x in case.get("params", [])])
+        return cls(*[num(case, x) for x in case.get("params", [])])
     if fam in ("_Event", "UnknownEvent", "AmbiguousInstanceType"):
         kw = dict(case["kw"])
         if case.get("occ_tuple"):
@@ -796,6 +814,17 @@ def _shard(arg):
             prev = {k: v for k, v in case.items() if k not in ("cls", "fam", "sibling", "map_history")}
             for sig, msg in run_case(case):
                 res.violation(sig, case, msg)
+            # the same numbers handed over as members of an IntEnum / instances of an int subclass (every third case)
+            if n % 3 == 0 and any(isinstance(x, int) and not isinstance(x, bool)
+                                  for x in list(case.get("params", [])) + [case.get("power"), case.get("address")]
+                                  + list((case.get("kw") or {}).values())):
+                form = "intenum" if n % 2 else "intsub"
+                c2 = dict({k: v for k, v in case.items() if k != "sibling"}, intform=form)
+                res.count()
+                res.nontrivial()
+                res.label("legal:numbers-as-" + form)
+                for sig, msg in run_case(c2):
+                    res.violation(sig + ":" + form, c2, msg)
         res.count(n)
         res.nontrivial(n=n)
         res.label("legal:" + fam, n)
